@@ -1,4 +1,5 @@
 import SpoxModel.Model.RtShape
+import SpoxModel.Model.ScanRun
 /-! Helper lemmas for C06: how `dimsOk` (a runtime shape conforms to a reported shape) behaves under
 the list operations the inference routines perform on shapes. -/
 namespace C06M
@@ -261,5 +262,45 @@ theorem conformsAll_get : ∀ (row : List RtVal) (s : List Ty) (j : Nat) (t : Ty
     simp only [List.getElem?_cons_succ] at hj
     obtain ⟨w, hw, hc⟩ := conformsAll_get vs ts j t h.2 hj
     exact ⟨w, by simpa using hw, hc⟩
+
+/-! ### Scan: inserting / deleting an axis -/
+
+theorem dimsOk_insAt : ∀ {ns : List Nat} {ds : List Dim} (i n : Nat) (d : Dim),
+    dimsOk ns ds = true → dimOk n d = true → dimsOk (insAt i n ns) (insAt i d ds) = true
+  | ns, ds, 0, n, d, h, hd => by simp [insAt, dimsOk, h, hd]
+  | [], [], _ + 1, n, d, _, hd => by simp [insAt, dimsOk, hd]
+  | [], _ :: _, _ + 1, _, _, h, _ => by simp [dimsOk] at h
+  | _ :: _, [], _ + 1, _, _, h, _ => by simp [dimsOk] at h
+  | _ :: ns, _ :: ds, i + 1, n, d, h, hd => by
+    simp only [dimsOk, Bool.and_eq_true] at h
+    simp [insAt, dimsOk, h.1, dimsOk_insAt i n d h.2 hd]
+
+theorem dimsOk_delAt : ∀ {ns : List Nat} {ds : List Dim} (i : Nat),
+    dimsOk ns ds = true → dimsOk (delAt i ns) (delAt i ds) = true
+  | [], [], _, _ => by simp [delAt, dimsOk]
+  | [], _ :: _, _, h => by simp [dimsOk] at h
+  | _ :: _, [], _, h => by simp [dimsOk] at h
+  | _ :: ns, _ :: ds, 0, h => by
+    simp only [dimsOk, Bool.and_eq_true] at h
+    simpa [delAt] using h.2
+  | _ :: ns, _ :: ds, i + 1, h => by
+    simp only [dimsOk, Bool.and_eq_true] at h
+    simp [delAt, dimsOk, h.1, dimsOk_delAt i h.2]
+
+theorem dimsOk_getD : ∀ {ns : List Nat} {ds : List Dim} (i : Nat),
+    dimsOk ns ds = true → dimOk (ns.getD i 0) (ds.getD i .anon) = true
+  | [], [], _, _ => by simp
+  | [], _ :: _, _, h => by simp [dimsOk] at h
+  | _ :: _, [], _, h => by simp [dimsOk] at h
+  | _ :: ns, _ :: ds, 0, h => by
+    simp only [dimsOk, Bool.and_eq_true] at h
+    simpa using h.1
+  | _ :: ns, _ :: ds, i + 1, h => by
+    simp only [dimsOk, Bool.and_eq_true] at h
+    simpa using dimsOk_getD i h.2
+
+theorem delAt_zero_eq_drop {α : Type} : ∀ (l : List α), delAt 0 l = l.drop 1
+  | [] => rfl
+  | _ :: _ => rfl
 
 end C06M
